@@ -32,7 +32,7 @@ if [ $T_EXIST = pass ] && [ $D_WITH = fail ] && [ $D_WITHOUT = pass ]; then
   # run our check against it
   # the check runs against the scratch worktree (with the patch applied), never against /repo
   git apply /verif/seeded/$DEST/patch.diff
-  (cd /verif && ./check $PROP quick --no-evidence --repo $WT > /tmp/confirm_check_$$.log 2>&1); RC=$?
+  (cd /verif && /verif/bin/gosym check $PROP --tier quick --no-evidence --repo $WT > /tmp/confirm_check_$$.log 2>&1); RC=$?
   git checkout -q -- .
   DET=$(grep -m1 '^VIOLATION\|^INCONCLUSIVE' /tmp/confirm_check_$$.log)
   MSG=$(grep -m1 -A1 '^VIOLATION' /tmp/confirm_check_$$.log | tail -1 | sed 's/^ *//')
